@@ -183,9 +183,12 @@ structure File where
   mode  : Nat           -- permission bits
 deriving DecidableEq, Repr, Inhabited
 
-abbrev FS := Str → Option File
+/-- A file system: path ↦ file.  (A structure around the function so that compiled code evaluates an update once, not at
+every later lookup.) -/
+structure FS where
+  get : Str → Option File
 
-def FS.set (fs : FS) (p : Str) (f : Option File) : FS := fun q => if q = p then f else fs q
+def FS.set (fs : FS) (p : Str) (f : Option File) : FS := ⟨fun q => if q = p then f else fs.get q⟩
 
 inductive Err where
   | valueError          -- unknown post-processor type
@@ -212,17 +215,17 @@ def step (prog : Prog) (ren : Nat → Str → Str) (defMode : Nat) (w : World) (
     | .reset _ => { w with log := log }
     | .raiseUnknown => { w with log := log, err := some .valueError }
     | .overwrite p allow =>
-        match w.fs p with
+        match w.fs.get p with
         | none => { w with log := log }
         | some f =>
             if allow then ⟨w.fs.set p (some ⟨f.bytes, f.mode ||| 0o220⟩), log, none⟩
             else { w with log := log, err := some .permissionError }
     | .write p b _ =>
-        let mode := match w.fs p with | some f => f.mode | none => defMode
+        let mode := match w.fs.get p with | some f => f.mode | none => defMode
         ⟨w.fs.set p (some ⟨b, mode⟩), log, none⟩
     | .copy p b m => ⟨w.fs.set p (some ⟨b, m⟩), log, none⟩
     | .chmod p m =>
-        match w.fs p with
+        match w.fs.get p with
         | none => { w with log := log, err := some .fileNotFound }
         | some f => ⟨w.fs.set p (some ⟨f.bytes, m⟩), log, none⟩
     | .exec argv chk =>
@@ -231,7 +234,7 @@ def step (prog : Prog) (ren : Nat → Str → Str) (defMode : Nat) (w : World) (
     | .custom k p =>
         -- the recording post-processor of the tie: moves the file to the path it returns
         if ren k p = p then { w with log := log }
-        else ⟨(w.fs.set (ren k p) (w.fs p)).set p none, log, none⟩
+        else ⟨(w.fs.set (ren k p) (w.fs.get p)).set p none, log, none⟩
 
 def interp (prog : Prog) (ren : Nat → Str → Str) (defMode : Nat) : World → List Event → World
   | w, [] => w
@@ -253,7 +256,7 @@ def fileWorld (prog : Prog) (ren : Nat → Str → Str) (defMode : Nat) (sem : S
 (`all = true`); the marker states the permission bits the file has at that moment (so the bytes tell whether the
 program ran before or after a `chmod`); exits non-zero iff its last argument is in `failOn`. -/
 def stubEdit (marker : Nat → Str) (fs : FS) (p : Str) : FS :=
-  match fs p with
+  match fs.get p with
   | some f => fs.set p (some ⟨f.bytes ++ marker f.mode, f.mode⟩)
   | none => fs
 
@@ -279,12 +282,12 @@ def builtinOnly : List Obj → Bool
 /-- An in-place editor: called with arguments from `keep` (the interpreter, the configured options and inputs) followed by
 one more path, the program modifies at most the file at that last path. -/
 def Prog.EditsLastOnly (prog : Prog) (keep : List Str) : Prop :=
-  ∀ argv fs q, (∀ a ∈ argv.dropLast, a ∈ keep) → some q ≠ argv.getLast? → (prog argv fs).1 q = fs q
+  ∀ argv fs q, (∀ a ∈ argv.dropLast, a ∈ keep) → some q ≠ argv.getLast? → (prog argv fs).1.get q = fs.get q
 
 /-- What the program does to the files named on its command line, and its exit status, depend only on the command
 line and on those files. -/
 def Prog.Local (prog : Prog) : Prop :=
-  ∀ argv fs fs', (∀ p ∈ argv, fs p = fs' p) →
-    (∀ p ∈ argv, (prog argv fs).1 p = (prog argv fs').1 p) ∧ (prog argv fs).2 = (prog argv fs').2
+  ∀ argv fs fs', (∀ p ∈ argv, fs.get p = fs'.get p) →
+    (∀ p ∈ argv, (prog argv fs).1.get p = (prog argv fs').1.get p) ∧ (prog argv fs).2 = (prog argv fs').2
 
 end NunavutVerif.FilePP
